@@ -213,6 +213,7 @@ type worldCfg struct {
 	plans       []sessPlan    // fault plans of the first watch sessions
 	typed       string        // C20: build the root through this typed package (adapters_gen_test.go)
 	objType     string        // C20: server objects are of this typed package's type (also for untyped roots)
+	passThrough bool          // consumers read through a forwarding goroutine, like the typed adapters (C20's untyped world)
 	typedLists  bool          // C20: lists are the typed list type instead of a metav1.List of raw objects
 }
 
@@ -364,6 +365,29 @@ func (w *world) filtName(i int) string {
 	return fmt.Sprintf("#%d:%s", i, w.fam[i])
 }
 
+// passSub is what the generated typed adapters are, minus the type
+// conversion: one goroutine that forwards Events() through an unbuffered
+// channel.  The untyped world of a typed/untyped differential wears it so that
+// both consumers have exactly the same buffering (an adapter holds one event
+// in hand while its consumer is not reading).
+type passSub struct {
+	kcache.Subscription
+	out chan kcache.Event
+}
+
+func newPassSub(s kcache.Subscription) *passSub {
+	a := &passSub{Subscription: s, out: make(chan kcache.Event)}
+	go func() {
+		defer close(a.out)
+		for ev := range s.Events() {
+			a.out <- ev
+		}
+	}()
+	return a
+}
+
+func (a *passSub) Events() <-chan kcache.Event { return a.out }
+
 func (w *world) addNode(n *node) {
 	n.id = len(w.nodes)
 	if n.name == "" {
@@ -384,6 +408,9 @@ func (w *world) addNode(n *node) {
 			n.leaf = n.fsub
 		} else {
 			n.leaf = n.sub
+		}
+		if w.cfg.passThrough {
+			n.leaf = newPassSub(n.leaf)
 		}
 		go n.pump()
 		if w.cfg.checkReady {
@@ -1055,6 +1082,9 @@ func (w *world) barrierRetry() {
 			}
 		}
 		for _, n := range mons {
+			if w.markerBlind(n) {
+				continue
+			}
 			if !n.cb.waitMark(rv, 100*time.Millisecond) {
 				ok = false
 			}
